@@ -14,11 +14,16 @@ pub struct WorldOpts {
     pub extreme: bool,
     pub always_fallback: bool,
     pub lex_size: usize,
+    /// exactly this many user dictionaries (14 = the maximum a dictionary set holds besides the system dictionary)
+    pub users_exact: Option<usize>,
+    /// add words whose declared A/B units are UNRELATED words (key lengths that neither add up to the word nor fall on its
+    /// character starts): the clamp and the snap of `NodeSplitIterator::next` are reached only by such declarations
+    pub unrelated_units: bool,
 }
 
 impl Default for WorldOpts {
     fn default() -> Self {
-        WorldOpts { input_plugins: true, path_rewrite: true, max_users: 2, splits: true, extreme: false, always_fallback: true, lex_size: 24 }
+        WorldOpts { input_plugins: true, path_rewrite: true, max_users: 2, splits: true, extreme: false, always_fallback: true, lex_size: 24, users_exact: None, unrelated_units: false }
     }
 }
 
@@ -67,6 +72,21 @@ pub fn gen_world(rng: &mut Rng, tag: &str, o: &WorldOpts) -> Result<World, Strin
     for (k, s) in ["1", "2", "3", "4", "5", "一", "二", "三", "十", "千"].iter().enumerate() {
         if !lex.rows.iter().any(|r| r.surface == *s) {
             lex.rows.push(Row::simple(s, (k % n) as i32, ((k + 1) % n) as i32, 700 + 37 * k as i32, NUMERAL));
+        }
+    }
+    if o.unrelated_units {
+        let base = lex.rows.len();
+        for _ in 0..rng.range(2, 5) {
+            let nparts = rng.range(2, 4);
+            let parts: Vec<usize> = (0..nparts).map(|_| rng.below(base)).collect();
+            let pool: Vec<char> = (0..3).map(|_| *rng.pick(WORD_CHARS)).collect();
+            let surface = rand_word(rng, &pool, 4);
+            // cheap, so that the word is on the best path when the text contains it
+            let mut row = Row::simple(&surface, rng.below(n) as i32, rng.below(n) as i32, -(rng.below(3000) as i32), rng.below(lex.pos.len()));
+            let ids = join(parts.iter(), "/");
+            row.mode = 'C';
+            match rng.below(3) { 0 => { row.split_a = ids; } 1 => { row.split_b = ids; } _ => { row.split_a = ids.clone(); row.split_b = ids; } }
+            lex.rows.push(row);
         }
     }
     let csv = csv_of(&lex.rows, &lex.pos);
@@ -141,7 +161,7 @@ pub fn gen_world(rng: &mut Rng, tag: &str, o: &WorldOpts) -> Result<World, Strin
     let cfg = config_json_cd(&wd, "char_full.def", &input, &oov, &pr, &[]);
 
     // user dictionaries: built against the loaded system dictionary
-    let nusers = if o.max_users == 0 { 0 } else { rng.below(o.max_users + 1) };
+    let nusers = if let Some(k) = o.users_exact { k } else if o.max_users == 0 { 0 } else { rng.below(o.max_users + 1) };
     let mut users = vec![];
     let mut user_pos = vec![];
     let mut user_bins = vec![];
